@@ -114,6 +114,20 @@ func VerifC07Candidates() {
 	k := vParam(0)
 	vDeploy("netmap", false, nil, nil, nil, []any{})
 	mLeg, mStr, mLegSt, mStrSt = false, false, 0, 0
+	switch vParam(1) { // fixture: n0 held by both lists in different states
+	case 1: // legacy Maintenance, structured Online
+		vAssume(alpha("addPeerIR", vBlob("n0", 5)))
+		vAssume(alpha("updateStateIR", 3, vKey("n0")))
+		vSign(vAcct("n0"), true)
+		vAssume(alpha("addNode", []any{[]any{"addr"}, nil, vKey("n0"), 1}))
+		mLeg, mStr, mLegSt, mStrSt = true, true, 3, 1
+	case 2: // legacy Online, structured Maintenance
+		vSign(vAcct("n0"), true)
+		vAssume(alpha("addNode", []any{[]any{"addr"}, nil, vKey("n0"), 1}))
+		vAssume(alpha("updateStateIR", 3, vKey("n0")))
+		vAssume(alpha("addPeerIR", vBlob("n0", 5)))
+		mLeg, mStr, mLegSt, mStrSt = true, true, 1, 3
+	}
 	step("A")
 	if k >= 2 {
 		step("B")
